@@ -26,7 +26,7 @@ type stopScenario struct {
 	cancelBeforeError bool
 }
 
-var stopCauses = []string{"eof", "err", "close", "reset", "short", "outofseq", "cancel-idle", "cancel-handler", "handler-err", "invalid", "unsupported", "mapper-err", "connect-fail"}
+var stopCauses = []string{"eof", "err", "close", "reset", "short", "outofseq", "cancel-idle", "cancel-handler", "handler-err", "handler-err-cancel", "invalid", "unsupported", "mapper-err", "connect-fail"}
 
 // runTermination covers C05 (termination, nothing left behind, Error() never blocks, handler scope) and
 // C06 (the reason is reported): every stop cause x stop point x reader blocking state x handler speed.
@@ -79,6 +79,7 @@ func runStopScenario(c *Ctx, prop string, h *history, evs [][]byte, idx []int, f
 		a.slowHandler = 15 * time.Millisecond
 	}
 	var mapper gobinlog.MysqlTableMapper
+	var mapperFail *tableDef
 	cut := cutAfterTx(sc.atTx)
 	switch sc.cause {
 	case "eof", "err", "close", "reset", "short", "outofseq":
@@ -97,7 +98,10 @@ func runStopScenario(c *Ctx, prop string, h *history, evs [][]byte, idx []int, f
 		if !sc.ahead {
 			a.events = evs[:cut]
 		}
-	case "handler-err":
+	case "handler-err", "handler-err-cancel":
+		if sc.cause == "handler-err-cancel" {
+			a.cancelInHandler = sc.atTx
+		}
 		a.verdicts = make([]bool, sc.atTx+1)
 		for i := range a.verdicts {
 			a.verdicts[i] = i != sc.atTx
@@ -118,7 +122,18 @@ func runStopScenario(c *Ctx, prop string, h *history, evs [][]byte, idx []int, f
 			a.events = a.events[:pre+1]
 		}
 	case "mapper-err":
-		t := h.tables[0]
+		// fail the lookup of a table the history really uses (otherwise nothing stops the stream)
+		var t *tableDef
+		for i := range h.events {
+			if h.events[i].kind == "tablemap" {
+				t = h.events[i].table
+				break
+			}
+		}
+		if t == nil {
+			return
+		}
+		mapperFail = t
 		mapper = &hMapper{tables: h.tables, failFor: t.db + "." + t.name}
 	}
 	class := fmt.Sprintf("%s/ahead%v/slow%v/late-cancel%v", sc.cause, sc.ahead, sc.slow, sc.cancelBeforeError)
@@ -208,7 +223,7 @@ func runStopScenario(c *Ctx, prop string, h *history, evs [][]byte, idx []int, f
 			badAt = vh.I(int64(inj))
 		}
 		if sc.cause == "mapper-err" {
-			t := h.tables[0]
+			t := mapperFail
 			for i := range a.events {
 				if i < len(idx) && idx[i] >= 0 && h.events[idx[i]].kind == "tablemap" && h.events[idx[i]].table.name == t.name && h.events[idx[i]].table.db == t.db {
 					badAt = vh.I(int64(i))
@@ -284,7 +299,7 @@ func runStopScenario(c *Ctx, prop string, h *history, evs [][]byte, idx []int, f
 		add("spec", "termination: handler called concurrently or after Stream returned", "", fmt.Sprintf("overlap=%v afterReturn=%v", res.overlap, res.afterReturn))
 	}
 	// ---- C06 ----
-	mustFail := map[string]bool{"handler-err": true, "invalid": true, "unsupported": true, "mapper-err": true, "connect-fail": true}
+	mustFail := map[string]bool{"handler-err": true, "handler-err-cancel": true, "invalid": true, "unsupported": true, "mapper-err": true, "connect-fail": true}
 	if mustFail[sc.cause] && res.streamErr == nil {
 		add("spec", "reporting: Stream returned nil after "+sc.cause, "non-nil error", "nil")
 	}
